@@ -121,7 +121,8 @@ class PyDBMLParser:
 
         self.ref_blueprints: List[ReferenceBlueprint] = []
         self.table_groups: List[TableGroupBlueprint] = []
-        self.source = source
+        # the same line endings whichever way the text was read (files opened by path are already translated)
+        self.source = source.replace('\r\n', '\n').replace('\r', '\n')
         self.tables: List[TableBlueprint] = []
         self.refs: List[ReferenceBlueprint] = []
         self.enums: List[EnumBlueprint] = []
